@@ -134,7 +134,11 @@ def _do_write(parent, src, port, pl, b, libs, pre_existing, form):
             # another port / library list): the property says "always writes", whatever is already there
             src0, port0, libs0 = pre_existing[1:4]
             pl0, b0 = (pre_existing[4], pre_existing[5]) if len(pre_existing) >= 6 else (pl, b)
-            pio.write_project(proj, src0, port0, platform=pl0, board=b0, lib_deps=libs0)
+            try:
+                pio.write_project(proj, src0, port0, platform=pl0, board=b0, lib_deps=libs0)
+            except Exception as e:  # noqa - the earlier call is itself a write for a registered pair inside the guard
+                return {"status": "Other", "exc": type(e).__name__, "msg": str(e)[:200], "stage": "the earlier write_project call",
+                        "earlier_call": [src0[:80], port0, pl0, b0, libs0]}
         elif pre_existing:
             (real / "src").mkdir(parents=True)
             (real / "src" / "main.cpp").write_text("old")
